@@ -195,10 +195,278 @@ def gen_consts():
             f.write(text)
 
 
+# ----------------------------------------------------------------------------------------------
+# coq/genprops/DissimGen.v: the arithmetic of the built-in dissimilarities, translated expression by expression from dissimilarity.py
+
+DISSIM_CLASSES = [("PositionalSporadicDissimilarity", "pos"), ("AbsoluteCategoricalDissimilarity", "abs"),
+                  ("PrecomputedCategoricalDissimilarity", "table"), ("CombinedCategoricalDissimilarity", "comb")]
+PARAM_TYPES = {"matrix": "list (list Q)", "categories": "list Z"}
+
+
+class ExprTr:
+    """Python expression (the sub-language the kernels use) -> Gallina text over Q.  mode 'arr': unit1 / unit2 are float arrays (list Q);
+    mode 'obj': they are Unit objects (unitq).  Every name that is not a local or a unit becomes a parameter of the generated definition."""
+
+    def __init__(self, mode, closure):
+        self.mode, self.closure, self.params, self.locals = mode, closure, [], set()
+
+    def param(self, name, ty="Q"):
+        name = name.lstrip("_")
+        ty = PARAM_TYPES.get(name, ty)
+        for k, (n, t) in enumerate(self.params):
+            if n == name:
+                if t != ty:
+                    raise Unsupported("parameter %s used at two types" % name)
+                return name
+        self.params.append((name, ty))
+        return name
+
+    def self_path(self, node):
+        """self.a.b -> ['a', 'b'] ; None otherwise"""
+        path = []
+        while isinstance(node, ast.Attribute):
+            path.append(node.attr)
+            node = node.value
+        if isinstance(node, ast.Name) and node.id == "self":
+            return list(reversed(path))
+        return None
+
+    def unit(self, node):
+        return node.id if isinstance(node, ast.Name) and node.id in ("unit1", "unit2") else None
+
+    def fun_type(self):
+        return "list Q -> list Q -> Q" if self.mode == "arr" else "unitq -> unitq -> Q"
+
+    def label(self, node):
+        """expression of type option Z (a unit's annotation)"""
+        if isinstance(node, ast.Attribute) and node.attr == "annotation" and self.unit(node.value):
+            return "(qc %s)" % node.value.id
+        raise Unsupported("label expression expected at line %d: %s" % (node.lineno, ast.unparse(node)))
+
+    def is_label(self, node):
+        return isinstance(node, ast.Attribute) and node.attr == "annotation"
+
+    def boolean(self, node):
+        if isinstance(node, ast.Compare) and len(node.ops) == 1 and isinstance(node.ops[0], (ast.Eq, ast.NotEq)):
+            l, r = node.left, node.comparators[0]
+            if self.is_label(l) or self.is_label(r):
+                b = "(cat_eqb %s %s)" % (self.label(l), self.label(r))
+            else:
+                b = "(Qeq_bool %s %s)" % (self.q(l), self.q(r))
+            return b if isinstance(node.ops[0], ast.Eq) else "(negb %s)" % b
+        raise Unsupported("comparison expected at line %d: %s" % (node.lineno, ast.unparse(node)))
+
+    def index(self, node):
+        """expression of type nat (a matrix index)"""
+        if isinstance(node, ast.Call):
+            f = ast.unparse(node.func)
+            if f in ("np.int32", "int") and len(node.args) == 1:
+                return "(Z.to_nat (Qfloor %s))" % self.q(node.args[0])
+            sp = self.self_path(node.func)
+            if sp and sp[-1] == "index" and len(sp) == 2 and len(node.args) == 1:
+                return "(cat_index %s %s)" % (self.param(sp[0]), self.label(node.args[0]))
+        raise Unsupported("index expression expected at line %d: %s" % (node.lineno, ast.unparse(node)))
+
+    def q(self, node):
+        if isinstance(node, ast.BinOp):
+            op = {ast.Add: "+", ast.Sub: "-", ast.Mult: "*", ast.Div: "/"}.get(type(node.op))
+            if op is None:
+                raise Unsupported("operator at line %d: %s" % (node.lineno, ast.unparse(node)))
+            return "(%s %s %s)" % (self.q(node.left), op, self.q(node.right))
+        if isinstance(node, ast.UnaryOp) and isinstance(node.op, ast.USub):
+            return "(- %s)" % self.q(node.operand)
+        if isinstance(node, ast.Constant) and isinstance(node.value, (int, float)) and not isinstance(node.value, bool):
+            return frac_str(node.value) if not float(node.value).is_integer() else ("%d" % int(node.value) if node.value >= 0 else "(-%d)" % int(-node.value))
+        if isinstance(node, ast.IfExp):
+            return "(if %s then %s else %s)" % (self.boolean(node.test), self.q(node.body), self.q(node.orelse))
+        if isinstance(node, ast.Name):
+            if node.id in self.locals:
+                return node.id
+            if node.id in self.closure:
+                kind, name = self.closure[node.id]
+                if kind == "fun":
+                    raise Unsupported("function %s used as a number" % node.id)
+                return self.param(name)
+            raise Unsupported("unknown name %s at line %d" % (node.id, node.lineno))
+        if isinstance(node, ast.Subscript):
+            u = self.unit(node.value)
+            if u and self.mode == "arr" and isinstance(node.slice, ast.Constant) and isinstance(node.slice.value, int) and 0 <= node.slice.value <= 3:
+                return "(nth %d %s 0)" % (node.slice.value, u)
+            if isinstance(node.slice, ast.Tuple) and len(node.slice.elts) == 2:
+                base = node.value
+                if isinstance(base, ast.Name) and base.id in self.closure and self.closure[base.id][0] == "val":
+                    m = self.param(self.closure[base.id][1])
+                elif self.self_path(base) and len(self.self_path(base)) == 1:
+                    m = self.param(self.self_path(base)[0])
+                else:
+                    raise Unsupported("matrix expected at line %d" % node.lineno)
+                if PARAM_TYPES.get(m) != "list (list Q)":
+                    raise Unsupported("indexing something that is not the matrix at line %d" % node.lineno)
+                return "(mget %s %s %s)" % (m, self.index(node.slice.elts[0]), self.index(node.slice.elts[1]))
+            raise Unsupported("subscript at line %d: %s" % (node.lineno, ast.unparse(node)))
+        if isinstance(node, ast.Attribute):
+            sp = self.self_path(node)
+            if sp and len(sp) == 1:
+                return self.param(sp[0])
+            if self.mode == "obj" and isinstance(node.value, ast.Attribute) and node.value.attr == "segment" and self.unit(node.value.value):
+                acc = {"start": "qs", "end": "qe", "duration": "dur"}.get(node.attr)
+                if acc:
+                    return "(%s %s)" % (acc, node.value.value.id)
+            raise Unsupported("attribute at line %d: %s" % (node.lineno, ast.unparse(node)))
+        if isinstance(node, ast.Call):
+            f = ast.unparse(node.func)
+            if f in ("np.abs", "abs") and len(node.args) == 1:
+                return "(Qabs %s)" % self.q(node.args[0])
+            if f == "float" and len(node.args) == 1:
+                return "(if %s then 1 else 0)" % self.boolean(node.args[0])
+            args_are_units = len(node.args) == 2 and [self.unit(a) for a in node.args] == ["unit1", "unit2"] and not node.keywords
+            if isinstance(node.func, ast.Name) and node.func.id in self.closure and self.closure[node.func.id][0] == "fun" and args_are_units:
+                return "(%s unit1 unit2)" % self.param(self.closure[node.func.id][1], self.fun_type())
+            sp = self.self_path(node.func)
+            if sp and len(sp) == 2 and sp[1] in ("d", "d_mat") and args_are_units:
+                return "(%s unit1 unit2)" % self.param(sp[0] + "_" + sp[1], self.fun_type())
+            raise Unsupported("call at line %d: %s" % (node.lineno, ast.unparse(node)))
+        raise Unsupported("expression at line %d: %s" % (node.lineno, ast.unparse(node)))
+
+    def body(self, stmts):
+        """[docstring] local = expr ... return expr  ->  let ... in expr"""
+        out = []
+        stmts = [st for st in stmts if not (isinstance(st, ast.Expr) and isinstance(st.value, ast.Constant) and isinstance(st.value.value, str))]
+        for st in stmts[:-1]:
+            if not (isinstance(st, ast.Assign) and len(st.targets) == 1 and isinstance(st.targets[0], ast.Name)):
+                raise Unsupported("statement at line %d: %s" % (st.lineno, ast.unparse(st)[:60]))
+            e = self.q(st.value)
+            self.locals.add(st.targets[0].id)
+            out.append("let %s := %s in" % (st.targets[0].id, e))
+        if not stmts or not isinstance(stmts[-1], ast.Return) or stmts[-1].value is None:
+            raise Unsupported("the body does not end with `return <expr>`")
+        out.append(self.q(stmts[-1].value))
+        return "\n    ".join(out)
+
+
+def define(name, tr, unit_ty, text):
+    ps = sorted(tr.params)
+    return "Definition %s %s(unit1 unit2 : %s) : Q :=\n    %s." % (name, "".join("(%s : %s) " % p for p in ps), unit_ty, text), [n for n, _ in ps]
+
+
+def gen_dissim():
+    tree = ast.parse(open(os.path.join(REPO, "pygamma_agreement", "dissimilarity.py")).read())
+    classes = {n.name: n for n in tree.body if isinstance(n, ast.ClassDef)}
+    out = ["(* GENERATED by harness/gen_tables.py from pygamma_agreement/dissimilarity.py - do not edit.",
+           "   <k>_d_mat: body of the kernel compile_d_mat() builds (units are float arrays [start; end; duration; category index]);",
+           "   <k>_d: body of d() (units are objects).  Parameters = everything read from self / the closure, in alphabetical order. *)",
+           "From Coq Require Import List ZArith QArith Qabs Qround Bool.", "From PGA Require Import Dissim.Model.", "Import ListNotations.",
+           "Local Open Scope Q_scope.", ""]
+    sigs = []
+    for cname, k in DISSIM_CLASSES:
+        if cname not in classes:
+            raise Unsupported("class %s not found" % cname)
+        meths = {n.name: n for n in classes[cname].body if isinstance(n, ast.FunctionDef)}
+        if "compile_d_mat" not in meths or "d" not in meths:
+            raise Unsupported("%s lacks compile_d_mat / d" % cname)
+        # --- compile_d_mat: closure captures, then the inner kernel, then `return d_mat`
+        closure, inner = {}, None
+        body = [st for st in meths["compile_d_mat"].body if not (isinstance(st, ast.Expr) and isinstance(st.value, ast.Constant))]
+        for st in body:
+            if isinstance(st, ast.Assign) and len(st.targets) == 1 and isinstance(st.targets[0], ast.Name) and inner is None:
+                path, node = [], st.value
+                while isinstance(node, ast.Attribute):
+                    path.append(node.attr)
+                    node = node.value
+                if not (isinstance(node, ast.Name) and node.id == "self") or not path:
+                    raise Unsupported("closure capture at line %d is not self.<attr>" % st.lineno)
+                path.reverse()
+                if len(path) == 1:
+                    closure[st.targets[0].id] = ("val", path[0])
+                elif len(path) == 2 and path[1] == "d_mat":
+                    closure[st.targets[0].id] = ("fun", path[0] + "_d_mat")
+                else:
+                    raise Unsupported("closure capture at line %d" % st.lineno)
+            elif isinstance(st, ast.FunctionDef) and inner is None:
+                if [a.arg for a in st.args.args] != ["unit1", "unit2"] or [ast.unparse(d) for d in st.decorator_list] != ["dissimilarity_dec"]:
+                    raise Unsupported("kernel signature / decorator at line %d" % st.lineno)
+                inner = st
+            elif isinstance(st, ast.Return) and inner is not None and isinstance(st.value, ast.Name) and st.value.id == inner.name and st is body[-1]:
+                pass
+            else:
+                raise Unsupported("statement in compile_d_mat at line %d: %s" % (st.lineno, ast.unparse(st)[:60]))
+        if inner is None:
+            raise Unsupported("no kernel in %s.compile_d_mat" % cname)
+        tr = ExprTr("arr", closure)
+        text, ps = define(k + "_d_mat", tr, "list Q", tr.body(inner.body))
+        out += ["(* %s.compile_d_mat, line %d *)" % (cname, inner.lineno), text]
+        sigs.append((k + "_d_mat", ps))
+        # --- d
+        dm = meths["d"]
+        if [a.arg for a in dm.args.args] != ["self", "unit1", "unit2"]:
+            raise Unsupported("signature of %s.d" % cname)
+        tr = ExprTr("obj", {})
+        text, ps = define(k + "_d", tr, "unitq", tr.body(dm.body))
+        out += ["(* %s.d, line %d *)" % (cname, dm.lineno), text, ""]
+        sigs.append((k + "_d", ps))
+    # --- the array form of a unit: _build_arrays_continuum fills unit_array[unit_id][0..3]; _category_index
+    ad = {n.name: n for n in classes["AbstractDissimilarity"].body if isinstance(n, ast.FunctionDef)}
+    ci = ad.get("_category_index")
+    body = [st for st in ci.body if not (isinstance(st, ast.Expr) and isinstance(st.value, ast.Constant))] if ci else []
+    ok = (ci is not None and [a.arg for a in ci.args.args] == ["self", "categories", "annotation"] and len(body) == 2
+          and isinstance(body[0], ast.If) and ast.unparse(body[0].test) == "annotation is None and self.categories is None" and not body[0].orelse
+          and len(body[0].body) == 1 and ast.unparse(body[0].body[0]) == "return len(categories)" and ast.unparse(body[1]) == "return categories.index(annotation)")
+    if not ok:
+        raise Unsupported("_category_index does not have the shape `if annotation is None and self.categories is None: return len(categories)` / `return categories.index(annotation)`")
+    out += ["(* AbstractDissimilarity._category_index, line %d; categories.index(None) raises when None is not a category: the model returns the list length there," % ci.lineno,
+            "   and the theorems about it assume own_categories_none = true or a labelled unit *)",
+            "Definition category_index (own_categories_none : bool) (categories : list Z) (annotation : option Z) : nat :=",
+            "  if (match annotation with None => true | Some _ => false end) && own_categories_none then length categories",
+            "  else match annotation with Some x => index_of x categories | None => length categories end.", ""]
+    bc = ad.get("_build_arrays_continuum")
+    fields = {}
+    for node in ast.walk(bc) if bc else []:
+        if isinstance(node, ast.Assign) and len(node.targets) == 1 and isinstance(node.targets[0], ast.Subscript):
+            t = node.targets[0]
+            if isinstance(t.value, ast.Subscript) and ast.unparse(t.value) == "unit_array[unit_id]" and isinstance(t.slice, ast.Constant):
+                if t.slice.value in fields:
+                    raise Unsupported("unit_array[unit_id][%r] assigned twice" % t.slice.value)
+                fields[t.slice.value] = node.value
+    if sorted(fields) != [0, 1, 2, 3]:
+        raise Unsupported("_build_arrays_continuum does not fill unit_array[unit_id][0..3]")
+    acc = {"unit.segment.start": "qs unit", "unit.segment.end": "qe unit", "unit.segment.duration": "dur unit",
+           "self._category_index(categories, unit.annotation)": "inject_Z (Z.of_nat (category_index own_categories_none categories (qc unit)))"}
+    cells = []
+    for k in range(4):
+        src = ast.unparse(fields[k])
+        if src not in acc:
+            raise Unsupported("unit_array[unit_id][%d] = %s" % (k, src))
+        cells.append(acc[src])
+    out += ["(* _build_arrays_continuum, line %d: the four cells of a unit's row *)" % bc.lineno,
+            "Definition unit_row (own_categories_none : bool) (categories : list Z) (unit : unitq) : list Q :=\n  [%s]." % "; ".join(cells), ""]
+    out.append("(* parameter lists, for the record: %s *)" % "; ".join("%s(%s)" % (n, ",".join(ps)) for n, ps in sigs))
+    text = "\n".join(out) + "\n"
+    # NOT under gen/: this file is compiled per check (C04), so that a source change making it ill-typed cannot break the common build
+    os.makedirs(os.path.join(VERIF, "coq", "genprops"), exist_ok=True)
+    outp = os.path.join(VERIF, "coq", "genprops", "DissimGen.v")
+    if not os.path.exists(outp) or open(outp).read() != text:
+        with open(outp, "w") as f:
+            f.write(text)
+
+
+GENERATORS = [("cli", None), ("const", None), ("dissim", None)]
+
+
 if __name__ == "__main__":
-    try:
-        main()
-        gen_consts()
-    except Unsupported as e:
-        sys.stderr.write("gen_tables: unsupported construct: %s\n" % e)
-        sys.exit(3)
+    # each generator is fail-closed on its own: gen/STATUS gets one line `<name> ok|failed: <reason>`; the checks of the properties that depend on
+    # a table refuse to pass when its line is not ok (cli: C20; const: C05 C07 C19; dissim: C04)
+    status, rc = [], 0
+    for name, f in (("cli", main), ("const", gen_consts), ("dissim", gen_dissim)):
+        try:
+            f()
+            status.append("%s ok" % name)
+        except Unsupported as e:
+            status.append("%s failed: unsupported construct: %s" % (name, e))
+            rc = 3
+        except Exception as e:      # a source file that no longer parses, a missing file ...
+            status.append("%s failed: %s: %s" % (name, type(e).__name__, e))
+            rc = 3
+    with open(os.path.join(VERIF, "coq", "gen", "STATUS"), "w") as f:
+        f.write("\n".join(status) + "\n")
+    sys.stderr.write("\n".join(l for l in status if not l.endswith(" ok")) + "\n" if rc else "")
+    sys.exit(rc)
